@@ -101,7 +101,71 @@ def gen_server_sources(crate):
     pre = ('// generated from server/src/adf.rs - do not edit\n#![allow(unused)]\nuse std::collections::{HashMap, HashSet};\nuse std::sync::{Arc, RwLock};\n'
            'use adf_bdd::datatypes::adf::VarContainer;\nuse adf_bdd::datatypes::{BddNode, Term, Var};\nuse serde::{Deserialize, Serialize};\n'
            'use adf_bdd::adf::Adf;\nuse adf_bdd::obdd::Bdd;\ntype AcDb = Vec<String>;\n')
-    open(os.path.join(gen, 'server_dto.rs'), 'w').write(pre + txt[i:j])
+    open(os.path.join(gen, 'server_dto.rs'), 'w').write(pre + txt[i:j] + gen_server_handlers(txt))
+
+
+def _cut_item(txt, header_re, what):
+    """the item whose header matches, with the attribute lines in front of it, up to its closing brace"""
+    import re
+    m = re.search(header_re, txt, re.M)
+    if not m: raise RuntimeError('cannot locate %s in the server sources' % what)
+    start = m.start()
+    while True:      # attributes / derives directly in front
+        prev_end = txt.rfind('\n', 0, start - 1)
+        line = txt[prev_end + 1:start - 1] if start > 0 else ''
+        if line.strip().startswith('#['): start = prev_end + 1
+        else: break
+    i = txt.index('{', m.end() - 1); depth = 0
+    for k in range(i, len(txt)):
+        if txt[k] == '{': depth += 1
+        elif txt[k] == '}':
+            depth -= 1
+            if depth == 0: return txt[start:k + 1] + '\n'
+    raise RuntimeError('unbalanced braces in %s' % what)
+
+
+def _closure_body(txt, fn_name):
+    """body of the synchronous closure handed to spawn_blocking inside the request handler fn_name"""
+    import re
+    m = re.search(r'async fn %s\b' % fn_name, txt)
+    if not m: raise RuntimeError('cannot locate handler %s' % fn_name)
+    m2 = re.compile(r'spawn_blocking\(\s*move\s*\|\|\s*\{').search(txt, m.end())
+    nxt = re.compile(r'\nasync fn ').search(txt, m.end())
+    if not m2 or (nxt and m2.start() > nxt.start()): raise RuntimeError('no spawn_blocking closure in handler %s' % fn_name)
+    i = m2.end() - 1; depth = 0
+    for k in range(i, len(txt)):
+        if txt[k] == '{': depth += 1
+        elif txt[k] == '}':
+            depth -= 1
+            if depth == 0: return txt[i:k + 1]
+    raise RuntimeError('unbalanced braces in handler %s' % fn_name)
+
+
+def gen_server_handlers(txt):
+    """C16, handler closures: the synchronous closures that add_adf_problem / solve_adf_problem hand to spawn_blocking (parse + compile + picture;
+    rebuild from the stored form + strategy dispatch + pictures; both with the running-task bookkeeping) are cut out of server/src/adf.rs and wrapped into
+    ordinary functions over a stub AppState that has the same `currently_running` field; likewise AdfProblemInfo::from_adf_prob_and_tasks."""
+    cfg = open(os.path.join(REPO, 'server/src/config.rs')).read()
+    parts = ['\n// ---- handler closures, generated from server/src/adf.rs and server/src/config.rs\n',
+             'use std::sync::Mutex;\nuse adf_bdd::adfbiodivine::Adf as BdAdf;\nuse adf_bdd::parser::AdfParser;\nuse crate::double_labeled_graph::DoubleLabeledGraph;\ntype Ac = Vec<Term>;\n']
+    for rx, what in ((r'^pub\(crate\) enum Parsing\b', 'enum Parsing'), (r'^pub\(crate\) enum Strategy\b', 'enum Strategy'), (r'^pub\(crate\) struct AcAndGraph\b', 'struct AcAndGraph'),
+                     (r'^pub\(crate\) enum OptionWithError\b', 'enum OptionWithError'), (r'^impl<T> OptionWithError<T> \{', 'impl OptionWithError'),
+                     (r'^pub\(crate\) struct AcsPerStrategy\b', 'struct AcsPerStrategy'), (r'^pub\(crate\) struct AdfProblem\b', 'struct AdfProblem'),
+                     (r'^struct AddAdfProblemBodyPlain\b', 'struct AddAdfProblemBodyPlain'), (r'^struct AdfProblemInfo\b', 'struct AdfProblemInfo'),
+                     (r'^impl AdfProblemInfo \{', 'impl AdfProblemInfo'), (r'^struct SolveAdfProblemBody\b', 'struct SolveAdfProblemBody')):
+        parts.append(_cut_item(txt, rx, what))
+    parts.append('type AcsAndGraphsOpt = OptionWithError<Vec<AcAndGraph>>;\ntype SimplifiedAdfOpt = OptionWithError<SimplifiedAdf>;\n')
+    for rx, what in ((r'^pub\(crate\) enum Task\b', 'enum Task'), (r'^pub\(crate\) struct RunningInfo\b', 'struct RunningInfo')):
+        parts.append(_cut_item(cfg, rx, what))
+    parts.append('pub(crate) struct AppState { pub(crate) currently_running: Mutex<HashSet<RunningInfo>> }\n')
+    parts.append('pub(crate) fn add_closure(app_state: Arc<AppState>, username: String, problem_name: String, code: String, parsing: Parsing) '
+                 '-> Result<(SimplifiedAdf, AcAndGraph), &\'static str> {\n    let username_clone = username.clone();\n    let problem_name_clone = problem_name.clone();\n    let adf_problem_input = AddAdfProblemBodyPlain { name: problem_name.clone(), code, parsing };\n'
+                 '    (move || ' + _closure_body(txt, 'add_adf_problem') + ')()\n}\n')
+    parts.append('pub(crate) fn solve_closure(app_state: Arc<AppState>, running_info: RunningInfo, simp_adf: SimplifiedAdf, strategy: Strategy) -> Vec<AcAndGraph> {\n    let adf_problem_input = SolveAdfProblemBody { strategy };\n'
+                 '    let username = running_info.username.clone();\n    let problem_name = running_info.adf_name.clone();\n    let username_clone = username.clone();\n    let problem_name_clone = problem_name.clone();\n'
+                 '    (move || ' + _closure_body(txt, 'solve_adf_problem') + ')()\n}\n')
+    parts.append('pub(crate) fn running_tasks_of(adf: AdfProblem, tasks: &HashSet<RunningInfo>) -> Vec<Task> { AdfProblemInfo::from_adf_prob_and_tasks(adf, tasks).running_tasks }\n')
+    return ''.join(parts)
 
 
 def build_native(features=DEFAULT_FEATURES, release=False, extra=()):
